@@ -107,6 +107,15 @@ func genC08(seed uint64, tier string) *plan.Plan {
 			}
 		}
 	}
+	if r.IntN(4) == 0 {
+		// a transport write fault on the application's last send (the stream is unusable afterwards)
+		kind := int64(1 + r.IntN(3))
+		if udp {
+			kind = 3
+		}
+		pl.Ops = append(pl.Ops, plan.Op{K: "wfault", A: kind, B: int64(r.IntN(64))},
+			plan.Op{K: "data", A: int64(r.IntN(nT)), B: int64(1 + r.IntN(5)), C: int64(r.Uint64() >> 1), D: 20})
+	}
 	genSchedule(r, pl, 3, 40*len(pl.Ops))
 	return pl
 }
